@@ -52,7 +52,7 @@ def ev(s):
 GEN = {
     ("C10", "quick"): [("basic", ["P:A", "R:A"], 3, 1, 1, 0), ("basic", ["P:A", "R:A"], 3, 0, 1, 1), ("basic", ["P:A", "R:A", "P:S"], 4, 0, 0, 0),
                        ("norep", ["P:LEFTSHIFT", "P:A", "R:A"], 3, 0, 0, 1), ("absorb", ["P:C", "P:A", "P:B"], 3, 0, 0, 0),
-                       ("basic", ["P:A", "P:S"], 1, 1, 0, 0, 20), ("basic", ["P:A", "R:A"], 1, 0, 1, 0, 40), ("passthru", ["R:1"], 1, 1, 0, 0, NINE), ("passthru", ["R:1"], 1, 1, 0, 0, SIXTYFIVE)],
+                       ("basic", ["P:A", "P:S"], 1, 1, 0, 0, 20), ("basic", ["P:A", "R:A"], 1, 0, 1, 0, 40), ("passthru", ["R:1"], 1, 1, 0, 0, NINE)],
     ("C10", "thorough"): [("basic", ["P:A", "R:A", "P:S"], 3, 1, 1, 1), ("basic", ["P:A", "R:A"], 4, 1, 1, 0), ("basic", ["P:A", "R:A", "P:S", "R:S"], 5, 0, 0, 0),
                           ("norep", ["P:LEFTSHIFT", "P:A", "R:A", "P:S"], 4, 0, 1, 1), ("absorb", ["P:C", "P:A", "P:B", "R:C"], 4, 0, 0, 0),
                           ("chord", ["P:LEFTCTRL", "P:K", "P:A"], 3, 1, 1, 0), ("basic", ["P:A", "P:S"], 2, 1, 0, 0, 20), ("basic", ["P:A", "R:A"], 1, 0, 1, 1, 70),
@@ -66,14 +66,14 @@ GEN = {
     ("C12", "thorough"): [("shiftchord", ["P:LEFTSHIFT", "P:A", "R:LEFTSHIFT", "R:A"], 3, 2, 0, 0), ("passthru", ["R:1", "P:A"], 2, 2, 0, 0, NINE), ("basic", ["P:A", "R:A"], 3, 2, 0, 0), ("basic", ["P:S", "R:S"], 2, 2, 2, 0), ("chord", ["P:LEFTCTRL", "P:K", "R:LEFTCTRL"], 2, 2, 1, 0),
                           ("basic", ["P:A", "R:A"], 2, 3, 0, 0), ("norep", ["P:LEFTSHIFT", "P:A", "R:LEFTSHIFT"], 2, 2, 1, 0)],
     ("C20", "quick"): [("basic", ["P:A", "P:S"], 2, 1, 1, 0), ("chord", ["P:LEFTCTRL", "P:K"], 2, 1, 1, 0), ("passthru", ["R:1"], 1, 1, 0, 0, NINE), ("passthru", ["R:1"], 1, 1, 0, 0, SEVENTEEN)],
-    ("C20", "thorough"): [("passthru", ["R:1", "P:A"], 2, 2, 0, 0, NINE), ("passthru", ["R:1"], 1, 1, 0, 0, SEVENTEEN), ("passthru", ["R:1"], 1, 1, 0, 0, SIXTYFIVE), ("basic", ["P:A", "R:A", "P:S"], 3, 1, 1, 1), ("chord", ["P:LEFTCTRL", "P:K", "R:K"], 3, 1, 2, 0), ("norep", ["P:LEFTSHIFT", "P:A", "P:S"], 3, 1, 1, 0)],
+    ("C20", "thorough"): [("passthru", ["R:1", "P:A"], 2, 2, 0, 0, NINE), ("passthru", ["R:1"], 1, 1, 0, 0, SEVENTEEN), ("basic", ["P:A", "R:A", "P:S"], 3, 1, 1, 1), ("chord", ["P:LEFTCTRL", "P:K", "R:K"], 3, 1, 2, 0), ("norep", ["P:LEFTSHIFT", "P:A", "P:S"], 3, 1, 1, 0)],
 }
 # C06 at the loop (see ALIAS): a running repeat, held keys and chords across tablet-mode changes
 GEN[("C06", "quick")] = [("tapchord", ["P:A", "R:A", "P:B"], 3, 2, 1, 0), ("basic", ["P:S"], 1, 2, 2, 0), ("shiftchord", ["P:LEFTSHIFT", "P:A", "R:LEFTSHIFT"], 3, 1, 0, 0), ("chord", ["P:LEFTCTRL", "P:K"], 2, 1, 1, 0)]
 GEN[("C06", "thorough")] = GEN[("C12", "thorough")]
 # C18 at the real driver (see ALIAS): large batches - nine keys released at once by the tablet switch, bursts of pass-through events
-GEN[("C18", "quick")] = [("passthru", ["R:1"], 1, 1, 0, 0, NINE), ("basic", ["P:A", "R:A"], 1, 1, 0, 0, 20), ("passthru", ["R:1"], 1, 1, 0, 0, SIXTYFIVE)]
-GEN[("C18", "thorough")] = [("passthru", ["R:1", "P:A"], 2, 2, 0, 0, NINE), ("basic", ["P:A", "R:A"], 2, 1, 0, 0, 40), ("passthru", ["R:1", "P:A"], 2, 1, 0, 0, SIXTYFIVE), ("passthru", ["R:1"], 1, 1, 0, 0, SEVENTEEN)]
+GEN[("C18", "quick")] = [("passthru", ["R:1"], 1, 1, 0, 0, NINE), ("basic", ["P:A", "R:A"], 1, 1, 0, 0, 20)]
+GEN[("C18", "thorough")] = [("passthru", ["R:1", "P:A"], 2, 2, 0, 0, NINE), ("basic", ["P:A", "R:A"], 2, 1, 0, 0, 40), ("passthru", ["R:1"], 1, 1, 0, 0, SEVENTEEN)]
 # random (simulated) behaviours at larger bounds
 SIM = {
     "C10": [("basic", ["P:A", "R:A", "P:S", "R:S"], 6, 1, 1, 1), ("absorb", ["P:C", "P:A", "R:A", "P:B", "R:C"], 6, 1, 0, 1)],
@@ -207,6 +207,20 @@ def walk_traces(exe, wd, prop, tier):
         run_tmv(exe, ["walk", jp], stdout_path=tp)
         traces.append(tp)
     return jobs, traces
+
+
+def big_batch_cases():
+    """Hand-written schedules in the label language of Loop.tla (data, like the sleep/fault variants): n keys go down in one arrival and are read, then the
+    tablet switch turns on - the release-all is ONE batch of n events (n = 17, 64, 65: writers or loops that cut batches at 16, 63 or 64 records) -
+    then it turns off and the device goes away. TLC-simulated behaviours of the same configuration rarely take this order."""
+    L = lambda a, t="", k="", x="": {"a": a, "t": t, "k": k, "x": x}
+    out = []
+    for n in (17, 64, 65):
+        sched = [L("arrK", "P", k) for k in _MANY[:n]] + [L("poll", "dev", "", "KT")] + [L("readK") for _ in range(n + 1)] + \
+                [L("arrT", "On"), L("poll", "dev", "", "KT"), L("readT"), L("readT"), L("arrT", "Off"), L("poll", "dev", "", "KT"), L("readT"), L("readT"),
+                 L("arrK", "E"), L("poll", "dev", "", "KT"), L("readK")]
+        out.append({"id": "BIG-%d" % n, "lname": "passthru", "layout": LAYOUTS["passthru"], "sched": sched, "sleep": "no", "faults": 0})
+    return out
 
 
 def record_and_validate(res, exe, wd, cases, prop, extra_traces=()):
@@ -441,6 +455,9 @@ def variants(prop, tier, cases):
     if prop == "C20":
         step = max(1, len(cases) // (400 if tier == "quick" else 6000))
         out = [dict(c, faults="all") for c in cases[::step]]
+        out += [dict(c, faults="all") for c in big_batch_cases()[:1 if tier == "quick" else 3]]
+    if prop in ("C10", "C18"):
+        out += big_batch_cases()
     # the same runs one level lower: the REAL driver (mio, evdev-format reads, uinput-format writes) with the three system
     # calls it makes answered by the same scripted environment; MSC/SYN framing, auto-repeat and unnamed-key noise rotate
     stride = {"quick": 3, "thorough": 2}[tier] if prop != "C18" else 1      # (C18's loop-level part is about the real driver only)
